@@ -37,6 +37,8 @@ var c19HostForms = []hostForm{
 	{"trailing-dot", func(s string) string { return s + "." }},
 	{"service-as-sub-of-evil", func(s string) string { return s + ".evil.example:80" }},
 	{"userinfo-colon", func(s string) string { return "u:p@" + s }},
+	{"userinfo-is-service-colon", func(s string) string { return s + ":pw@evil.example" }},
+	{"userinfo-www-service-colon", func(s string) string { return "www." + s + ":443@evil.example" }},
 }
 
 var c19Paths = []string{"/embed/VID1", "/embed/VID1/", "/v/VID1", "/VID1", "/embed/", "/", "", "/video/VID1", "/embed/VID1?start=1", "/v/VID1&start=1", "/u/status/VID1", "/video/", "/embed/VID1//"}
@@ -327,7 +329,7 @@ func init() {
 	eng.Register(&eng.Prop{
 		ID:        "C19",
 		DesignRef: "§5 C19",
-		Rule: "source URLs = 4 schemes (http, https, scheme-relative, none) x 5 services (4 allow-listed + vimeo.com) x 16 host forms (exact, www, deep subdomain, suffix/prefix look-alikes, userinfo tricks, name in path/query/fragment, port, upper case, trailing dot) x 13 path/query shapes x 5 tag kinds (iframe, object data, object param, twitter blockquote, rendered-tweet iframe): full product in the article body; " +
+		Rule: "source URLs = 4 schemes (http, https, scheme-relative, none) x 5 services (4 allow-listed + vimeo.com) x 18 host forms (exact, www, deep subdomain, suffix/prefix look-alikes, userinfo tricks, name in path/query/fragment, port, upper case, trailing dot) x 13 path/query shapes x 5 tag kinds (iframe, object data, object param, twitter blockquote, rendered-tweet iframe): full product in the article body; " +
 			"the frames with the 1 (quick) / 4 (thorough) leading path shapes also inside a data-table cell, a figure caption and a layout table; thorough adds pairs of frames. Oracle: every embed placeholder maps to a source frame whose reference-parsed host is an allow-listed host of its data-type or a subdomain, with data-id = last non-empty path segment (resp. data-tweet-id); no iframe/object outside placeholder, table or caption. " +
 			"Non-trivial = a look-alike source is present or a placeholder was produced.",
 		Enumerate: c19Enumerate,
